@@ -425,16 +425,18 @@ theorem reverse_good (a : List Int) (N : Int) (hN0 : 0 ≤ N) (hp : a.Pairwise (
   have := (h3 x).mp hx
   omega
 
-/-- the seven leaves of the generated selection and what holds at each -/
+/-- the seven leaves of the generated selection and what holds at each: only what the samplers need
+(`choice` with size 0 or 1, algD with `1 ≤ n < N`, algA with `1 ≤ n ≤ N`) — the `10 *` thresholds between
+algA and algD are performance choices and are not pinned here -/
 theorem randomBranch_cases (nnz elements : Int) (dge1 : Bool) (_h0 : 0 ≤ nnz) (h1 : nnz ≤ elements)
     (hd : dge1 = true → nnz = elements) :
     (Gen.randomBranch nnz elements dge1 = (0, nnz, elements) ∧ nnz = elements) ∨
     (Gen.randomBranch nnz elements dge1 = (1, nnz, elements) ∧ nnz < 2 ∧ nnz < elements) ∨
     (Gen.randomBranch nnz elements dge1 = (2, elements - nnz, elements) ∧ 2 ≤ nnz ∧ elements - nnz = 1) ∨
-    (Gen.randomBranch nnz elements dge1 = (3, elements - nnz, elements) ∧ 2 ≤ elements - nnz ∧ 10 * (elements - nnz) < elements) ∨
-    (Gen.randomBranch nnz elements dge1 = (4, elements - nnz, elements) ∧ 2 ≤ elements - nnz ∧ 2 ≤ nnz) ∨
-    (Gen.randomBranch nnz elements dge1 = (5, nnz, elements) ∧ 2 ≤ nnz ∧ 10 * nnz < elements) ∨
-    (Gen.randomBranch nnz elements dge1 = (6, nnz, elements) ∧ 2 ≤ nnz ∧ 2 ≤ elements - nnz) := by
+    (Gen.randomBranch nnz elements dge1 = (3, elements - nnz, elements) ∧ 1 ≤ elements - nnz ∧ 1 ≤ nnz) ∨
+    (Gen.randomBranch nnz elements dge1 = (4, elements - nnz, elements) ∧ 1 ≤ elements - nnz ∧ 0 ≤ nnz) ∨
+    (Gen.randomBranch nnz elements dge1 = (5, nnz, elements) ∧ 1 ≤ nnz ∧ 1 ≤ elements - nnz) ∨
+    (Gen.randomBranch nnz elements dge1 = (6, nnz, elements) ∧ 1 ≤ nnz ∧ 0 ≤ elements - nnz) := by
   by_cases c1 : nnz = elements ∨ dge1 = true
   · left
     have : nnz = elements := by rcases c1 with h | h; exact h; exact hd h
@@ -447,16 +449,21 @@ theorem randomBranch_cases (nnz elements : Int) (dge1 : Bool) (_h0 : 0 ≤ nnz) 
       · right; right; left
         exact ⟨by simp only [Gen.randomBranch, c1, c2, c3, if_true, if_false], by omega, by omega⟩
       · by_cases c4 : nnz * 2 > elements
-        · by_cases c5 : elements > 10 * (elements - nnz)
-          · right; right; right; left
-            exact ⟨by simp only [Gen.randomBranch, c1, c2, c3, c4, c5, if_true, if_false], by omega, by omega⟩
-          · right; right; right; right; left
-            exact ⟨by simp only [Gen.randomBranch, c1, c2, c3, c4, c5, if_true, if_false], by omega, by omega⟩
-        · by_cases c5 : elements > 10 * nnz
-          · right; right; right; right; right; left
-            exact ⟨by simp only [Gen.randomBranch, c1, c2, c3, c4, c5, if_true, if_false], by omega, by omega⟩
-          · right; right; right; right; right; right
-            exact ⟨by simp only [Gen.randomBranch, c1, c2, c3, c4, c5, if_false], by omega, by omega⟩
+        · -- reverse ∘ (algD | algA): whichever the inner test picks
+          have h : Gen.randomBranch nnz elements dge1 = (3, elements - nnz, elements)
+              ∨ Gen.randomBranch nnz elements dge1 = (4, elements - nnz, elements) := by
+            simp only [Gen.randomBranch, c1, c2, c3, c4, if_true, if_false]
+            split <;> simp
+          rcases h with h | h
+          · right; right; right; left; exact ⟨h, by omega, by omega⟩
+          · right; right; right; right; left; exact ⟨h, by omega, by omega⟩
+        · have h : Gen.randomBranch nnz elements dge1 = (5, nnz, elements)
+              ∨ Gen.randomBranch nnz elements dge1 = (6, nnz, elements) := by
+            simp only [Gen.randomBranch, c1, c2, c3, c4, if_true, if_false]
+            split <;> simp
+          rcases h with h | h
+          · right; right; right; right; right; left; exact ⟨h, by omega, by omega⟩
+          · right; right; right; right; right; right; exact ⟨h, by omega, by omega⟩
 
 theorem random_idx (nnz elements : Int) (dge1 : Bool) (o : Oracle) (h0 : 0 ≤ nnz) (h1 : nnz ≤ elements)
     (hd : dge1 = true → nnz = elements) (ok : OracleOK nnz elements dge1 o) :
